@@ -53,7 +53,7 @@ package mdiff
 // findContext: up to n lines before the chunk that are the same on both sides (walking backwards, then reversed), and
 // up to n lines after it. The lines are copies (appended one by one), not spans of Left.
 //@ func (*Diff).findContext
-//@   requires [C13] d != nil && c != nil && 1 <= c.LStart && c.LStart <= c.LEnd && c.LEnd <= len(d.Left) + 1 && 1 <= c.RStart && c.RStart <= c.REnd && c.REnd <= len(d.Right) + 1
+//@   requires [C13] n >= 0 && d != nil && c != nil && 1 <= c.LStart && c.LStart <= c.LEnd && c.LEnd <= len(d.Left) + 1 && 1 <= c.RStart && c.RStart <= c.REnd && c.REnd <= len(d.Right) + 1
 //@   ensures  [C13] preLen: len(result.0) <= n && len(result.0) <= c.LStart - 1 && len(result.0) <= c.RStart - 1 && (len(result.0) > 0 ==> fresh(result.0))
 //@   ensures  [C13] pre: forall j int :: {result.0[j]} 0 <= j && j < len(result.0) ==> streq(result.0[j], d.Left[c.LStart - 1 - len(result.0) + j]) && streq(result.0[j], d.Right[c.RStart - 1 - len(result.0) + j])
 //@   ensures  [C13] postLen: len(result.1) <= n && c.LEnd - 1 + len(result.1) <= len(d.Left) && c.REnd - 1 + len(result.1) <= len(d.Right) && (len(result.1) > 0 ==> fresh(result.1))
